@@ -82,6 +82,25 @@ CHECKS = {
             {"run": "^TestC05Suppression$", "n": {"quick": 6000, "thorough": 40000}},
         ],
     },
+    "C06": {
+        "level": "exploration",
+        "technique": "property-based testing of the WithTTL fold model (pure) and generated-schedule testing of TTL/context propagation observed in a backend wrapper and inside the builder",
+        "design_ref": "DESIGN.md section 6 C06",
+        "text": "(1) Trees of contexts derived by WithTTL in both modes are compared with a cell model after every step. "
+                "(2) Under generated schedules the backend wrapper records TTL(ctx) of every store and the builder records "
+                "Done/Err/Deadline/values of its context: final store TTL = fold of builder updates over the caller's cell, "
+                "refresh store TTL = UpdateTTL, caller context TTL unchanged by the refresh, stored expiry = write instant + TTL, "
+                "background build context detached yet carrying the caller's values even for cancelled callers. "
+                "(3) Lone SkipRead Gets must rebuild exactly once and store the result. Sampled search.",
+        "note": "SkipRead Gets that overlap another Get's update of the same key are only required to satisfy C02; the rebuild "
+                "rule is asserted for non-overlapping and lone Gets.",
+        "assumptions": ["interleaving granularity = frontend call-outs", "backend jitter disabled so stored expiry is exact"],
+        "jobs": [
+            {"run": "^TestC06WithTTL$", "n": {"quick": 20000, "thorough": 150000}},
+            {"run": "^TestC06Failover$", "n": {"quick": 8000, "thorough": 40000}},
+            {"run": "^TestC06SkipReadLone$", "n": {"quick": 3000, "thorough": 20000}},
+        ],
+    },
     "C07": {
         "level": "exploration",
         "technique": "model-based stateful property testing (rapid) against a reference map on a fake clock",
@@ -110,6 +129,7 @@ CHECKS = {
         "assumptions": ["collision families are asserted against github.com/cespare/xxhash/v2 before use"],
         "jobs": [
             {"run": "^TestC09Collisions$", "n": {"quick": 10000, "thorough": 100000}},
+            {"run": "^TestC09BufferReuse$", "n": {"quick": 5000, "thorough": 40000}},
         ],
     },
     "C10": {
